@@ -22,7 +22,8 @@ Streams (all choices from the run's PRNG):
           `?=` twice / after `=` / inside a repetition, attribute `parent`, links to
           primitive types / unknown classes / unknown match rules / qualified names,
           `reference` statements, reserved rule names, `import`, `#` on single
-          operands, rules named like base types, bad RREL
+          operands, rules named like base types, bad RREL, a `Comment` rule that is one
+          rule reference (comments model re-read after reference resolution)
   tok:*   token-level mutations of a rendered grammar (drop / duplicate / swap /
           insert a token)
   free    grammars drawn directly from the productions of the grammar language
@@ -32,7 +33,11 @@ Lean side: the text is parsed with the grammar parser of the tree under test
 (`ParserPython(lang.textx_model)`); the parse tree is converted into the typed
 tree of `GramLoad.Grammar` (shape violations are reported, never patched) and
 `GramLoad.compile` / `GramLoad.outcomes` give the outcome class
-(Drivers/GramLoad.lean, op grammar_outcome).  Whether a regex compiles (and the
+(Drivers/GramLoad.lean, op grammar_outcome; the answer also carries the syntactic
+conditions of C23_classified — `bad_param`, `unregistered` — which `compare` holds
+against the implementation's outcome: a TextXError needs the first, a
+TextXRegistrationError the second).  One extra case (`isa-table`) compares the
+exception subclass table of the model (`PyExc.isa`) with `issubclass`.  Whether a regex compiles (and the
 class of the exception the regex engine raises when it does not: `re.error`,
 OverflowError, RecursionError, ValueError, …) and whether the escapes of a string
 decode is decided here with `re` / `codecs` (not through textX) and passed along.
@@ -824,6 +829,51 @@ def m_base_named(g, rng):
         g["comment"] = None
 
 
+def m_comment_alias(g, rng):
+    """the comments model: a `Comment` rule that is one rule reference (since fix f957bf6 the second pass reads
+    `metamodel["Comment"]._tx_peg_rule` again after the references are resolved) — to a new match rule, through a chain of
+    aliases, to an existing rule, to a base type, to nothing, to itself, into a cycle, or written with a qualified name"""
+    g["rules"] = [r for r in g["rules"] if r["name"] != "Comment"]
+    g["comment"] = None
+    kind = rng.choice(["line", "line", "chain", "existing", "base", "undef", "self", "cycle", "qualified", "sup", "params"])
+    line = {"name": "LineC", "params": {}, "body": {"k": "re", "v": r"\/\/.*$"}}
+    new = []
+    if kind == "line":
+        new = [{"name": "Comment", "params": {}, "body": {"k": "ref", "name": "LineC"}}, line]
+    elif kind == "chain":
+        k = rng.randint(1, 3)
+        names = ["Comment"] + [f"C{i}" for i in range(k)] + ["LineC"]
+        new = [{"name": a, "params": {}, "body": {"k": "ref", "name": b}} for a, b in zip(names, names[1:])] + [line]
+    elif kind == "existing":
+        new = [{"name": "Comment", "params": {}, "body": {"k": "ref", "name": rng.choice(g["rules"])["name"]}}]
+    elif kind == "base":
+        new = [{"name": "Comment", "params": {}, "body": {"k": "ref", "name": rng.choice(G.BASE + ["OBJECT"])}}]
+    elif kind == "undef":
+        new = [{"name": "Comment", "params": {}, "body": {"k": "ref", "name": "Undef"}}]
+    elif kind == "self":
+        new = [{"name": "Comment", "params": {}, "body": {"k": "ref", "name": "Comment"}}]
+    elif kind == "cycle":
+        new = [{"name": "Comment", "params": {}, "body": {"k": "ref", "name": "C0"}},
+               {"name": "C0", "params": {}, "body": {"k": "ref", "name": rng.choice(["Comment", "C0"])}}]
+    elif kind == "qualified":
+        new = [{"name": "Comment", "params": {}, "body": {"k": "ref", "name": rng.choice(["__base__.ID", "x.Y", "t.TextxRule"])}}]
+        if rng.chance(0.5):
+            g.setdefault("stms", []).append(_reference_stm(rng))
+    elif kind == "sup":
+        new = [{"name": "Comment", "params": {}, "body": {"k": "ref", "name": "LineC", "sup": True}}, line]
+    else:
+        new = [{"name": "Comment", "rawparams": [rng.choice(["noskipws", "ws=' '", "ws"])], "body": {"k": "ref", "name": "LineC"}},
+               line]
+    if rng.chance(0.3):
+        rng_first = new + g["rules"][1:]
+        g["rules"] = g["rules"][:1] + rng_first
+    else:
+        g["rules"] = g["rules"] + new
+    if rng.chance(0.3) and kind not in ("undef", "self", "cycle"):
+        # somebody also uses the Comment rule as an ordinary rule
+        g["rules"][0]["body"] = {"k": "seq", "xs": [g["rules"][0]["body"], {"k": "ref", "name": "Comment"}]}
+
+
 def m_nest(g, rng):
     r = rng.choice(g["rules"])
     e = r["body"]
@@ -837,7 +887,7 @@ AST_MUTATIONS = [
     ("alias-graph", m_alias_graph, 7), ("rewire", m_rewire, 3), ("bad-regex", m_bad_regex, 1), ("regex", m_regex, 6), ("bad-escape", m_bad_escape, 3), ("bad-param", m_bad_param, 4), ("bad-mods", m_bad_mods, 3),
     ("bool-asgn", m_bool_asgn, 4), ("parent", m_parent_attr, 1), ("link", m_link, 6), ("reference", m_reference, 3),
     ("reserved", m_reserved_name, 2), ("import", m_import, 1), ("hash", m_hash_single, 2), ("base-named", m_base_named, 2),
-    ("nest", m_nest, 1),
+    ("nest", m_nest, 1), ("comment-alias", m_comment_alias, 3),
 ]
 
 
@@ -936,6 +986,16 @@ class Free:
 # ---------------------------------------------------------------------------
 # parse tree of the grammar parser -> typed tree of GramLoad.Grammar
 # ---------------------------------------------------------------------------
+def python_isa_table():
+    """issubclass(C, H) for the exception classes of GramLoad.PyExc and the handler classes of GramLoad.Handler
+    (`re.error` by its module name `error`; `other` is represented by `Exception` itself)"""
+    classes = {"KeyError": KeyError, "AttributeError": AttributeError, "TypeError": TypeError, "IndexError": IndexError,
+               "RecursionError": RecursionError, "AssertionError": AssertionError, "UnicodeDecodeError": UnicodeDecodeError,
+               "error": re.error, "OverflowError": OverflowError, "ValueError": ValueError, "Exception": Exception}
+    handlers = {"Exception": Exception, "ValueError": ValueError, "KeyError": KeyError, "error": re.error}
+    return {c: {h: issubclass(cv, hv) for h, hv in handlers.items()} for c, cv in classes.items()}
+
+
 class ShapeError(Exception):
     pass
 
@@ -1291,11 +1351,23 @@ class Prop(Check):
         "GramLoad.C23_any_order",
         "GramLoad.C23_compile_in_outcomes",
         "GramLoad.C23_alias_fuel",
+        "GramLoad.C23_alias_fuel_irrelevant",
         "GramLoad.C23_parse_failure",
         "GramLoad.C23_unfixed_alias_false",
         "GramLoad.C23_regex_any_exception",
         "GramLoad.C23_narrow_handler_false",
         "GramLoad.C23_start_only_alias_false",
+        "GramLoad.C23_comments_model_total",
+        "GramLoad.C23_classified",
+        "GramLoad.C23_registration_needs_unregistered",
+        "GramLoad.C23_registration_only_reference",
+        "GramLoad.C23_txerror_needs_bad_param",
+        "GramLoad.C23_bad_param_value_spec",
+        "GramLoad.C23_txerror_first_param",
+        "GramLoad.C23_named_classes",
+        "GramLoad.C23_named_classes_compile",
+        "GramLoad.C23_handlers_spec",
+        "GramLoad.C23_except_exception_catches_all",
     ]
     DRIVER = "Drivers/GramLoad.lean"
     QUICK_CASES = 1400
@@ -1303,19 +1375,19 @@ class Prop(Check):
     PROCS_QUICK = min(2, int(os.environ.get("VERIF_PROCS", "2")))
     PROCS_THOROUGH = int(os.environ.get("VERIF_PROCS", "4"))
     CASE_TIMEOUT = 20
-    RULE = ("grammar texts: valid generated grammars (gen_grammar), 1-3 AST-level mutations of them (20 operators: undefined / "
+    RULE = ("grammar texts: valid generated grammars (gen_grammar), 1-3 AST-level mutations of them (21 operators: undefined / "
             "dropped / duplicated rules, alias cycles, alias graphs (single-reference rules forming random functional graphs: "
             "tails into cycles, several tails, chains into real / base / undefined rules; entered from the root rule, from "
             "references in every syntactic position, or not at all), rule references redirected to arbitrary rules (recursion through ordinary and abstract rules), regexes drawn from the productions of the regex syntax "
             "(valid or with one of 16 flaws, repetition bounds of every magnitude up to 10**30, nesting beyond the interpreter "
             "stack) in every place a regex match can stand, generated string escapes, bad rule parameters and modifiers, bool "
-            "assignments, `parent`, links, reference statements, reserved names, import, `#`, base-type names, nesting), "
+            "assignments, `parent`, links, reference statements, reserved names, import, `#`, base-type names, nesting, Comment rule as a rule reference), "
             "token-level mutations, and grammars drawn from the productions of the grammar language; non-trivial = the text "
             "gets past the grammar parser and the visitor or the second pass reports an error (an error path inside "
             "lang.py / metamodel.py is exercised)")
     MODELLED = ("hand-modelled: TextXVisitor first pass (rule names, rule params, string / regex matches, obj refs, assignments, "
                 "repeat operators, textx_rule incl. _update_attr_multiplicities, import / reference statements), second pass "
-                "(_resolve_rule_refs with alias chains, attribute reads of _determine_rule_types, _resolve_cls_refs, "
+                "(_resolve_rule_refs with alias chains, the two reads of the comments model, attribute reads of _determine_rule_types, _resolve_cls_refs, "
                 "TextXMetaModel.__getitem__/__contains__) in an explicit error monad (GramLoad.lean); inputs of the model computed "
                 "by Python itself: the parse tree (grammar parser of the tree under test), re.compile outcome of every regex literal "
                 "(compiles, or the class of the exception the regex engine raises: re.error / OverflowError / RecursionError / "
@@ -1324,7 +1396,8 @@ class Prop(Check):
     ASSUMPTIONS = [
         "the typed tree GramLoad.Grammar is the shape of the parse trees of lang.textx_model (the converter rejects any other shape)",
         "re.compile raises only subclasses of Exception (the model covers every class: C23_regex_any_exception), "
-        "codecs.decode only ValueError subclasses; Python warnings are not turned into errors",
+        "codecs.decode only ValueError subclasses; Python warnings are not turned into errors; the subclass table the "
+        "handler specs use (PyExc.isa, C23_handlers_spec) is compared with issubclass of the running interpreter on every run",
         "metamodel_from_str is called with a str and no file_name, classes, or debug",
         "CPython recursion limit is not reached (nesting depth of generated grammars <= 40; deeper: known finding KF-C23-1; "
         "chains of rule references of generated grammars <= 20 rules; some hundred: known finding KF-C23-2)",
@@ -1338,6 +1411,7 @@ class Prop(Check):
         return g
 
     def gen(self, rng, n, tier):
+        yield {"text": "", "opts": {}, "origin": "isa-table", "isa_table": True}
         for i in range(n):
             r = rng.fork(f"case{i}")
             kind = r.weighted([("valid", 12), ("ast", 50), ("tok", 18), ("free", 20)])
@@ -1389,6 +1463,9 @@ class Prop(Check):
         from textx import metamodel_from_str
         from textx.exceptions import TextXError
 
+        if case.get("isa_table"):
+            # the subclass table the handler specs (C23_handlers_spec) rest on, from the running interpreter
+            return {"tree": None, "langs": {}, "out": "ok", "isa_table": python_isa_table()}
         text, opts = case["text"], case.get("opts", {})
         ic = bool(opts.get("ignore_case"))
         obs = {"tree": None, "langs": {}}
@@ -1430,6 +1507,8 @@ class Prop(Check):
 
     # ---- model --------------------------------------------------------------
     def model_req(self, case, obs):
+        if "isa_table" in obs:
+            return {"op": "isa_table"}
         if "shape_error" in obs or obs.get("parse_recursion"):
             return None
         if obs["tree"] is None:
@@ -1439,13 +1518,32 @@ class Prop(Check):
     def compare(self, case, obs, out):
         if "err" in out:
             return f"model rejected the request: {out}"
-        got = obs["out"]
-        if got == out["out"] or got in out["alts"]:
+        if "isa_table" in obs:
+            if out.get("table") != obs["isa_table"]:
+                diff = [(c, h) for c, row in obs["isa_table"].items() for h, v in row.items()
+                        if out.get("table", {}).get(c, {}).get(h) is not v]
+                return f"exception hierarchy: issubclass differs from PyExc.isa at {diff}"
             return None
-        return f"outcome class: implementation {got} ({obs.get('msg', '')!r}), model {out['out']} (possible: {out['alts']})"
+        got = obs["out"]
+        if not (got == out["out"] or got in out["alts"]):
+            return f"outcome class: implementation {got} ({obs.get('msg', '')!r}), model {out['out']} (possible: {out['alts']})"
+        # the syntactic conditions of C23_classified, checked against the implementation's outcome directly
+        if "bad_param" in out:
+            if got == "txerror" and not out["bad_param"]:
+                return ("TextXError raised although no rule parameter lacks its string value "
+                        f"(C23_txerror_needs_bad_param; {obs.get('msg', '')!r})")
+            if got == "registration" and not out["unregistered"]:
+                return ("TextXRegistrationError raised although every referenced language is registered "
+                        f"(C23_registration_needs_unregistered; {obs.get('msg', '')!r})")
+            if (got not in ("ok", "syntax", "semantic") and not got.startswith("py:")
+                    and not out["bad_param"] and not out["unregistered"]):
+                return f"outcome {got} outside ok / syntax / semantic although C23_named_classes applies"
+        return None
 
     # ---- direct oracle ------------------------------------------------------
     def oracle(self, case, obs):
+        if "isa_table" in obs:
+            return None
         if "shape_error" in obs:
             return ("the parse tree of the grammar parser does not have the shape the model is stated for: "
                     + obs["shape_error"])
